@@ -616,3 +616,184 @@ def obs_c08(c: Ctx, st_builder, *, assignments, form_rotate=0):
             a2 = dict(a, via=via, self=self_)
             out.append({"q": "filter_copy", "a": a2, "r": call(run_copy, norm_copy)})
     return out
+
+
+# ------------------------------------------------------------------------------------------------ C17
+import io as _io  # noqa: E402
+import re as _re  # noqa: E402
+
+ROOT_KEY = -100
+
+
+def _dot_parse(lines):
+    nodes, edges, section = [], [], None
+    for ln in lines:
+        if ln.startswith("  # Node Definitions"):
+            section = "n"
+            continue
+        if ln.startswith("  # Edge Definitions"):
+            section = "e"
+            continue
+        if not ln.strip() or ln.startswith("#") or ln.startswith("digraph") or ln == "}" or ln.startswith("  # "):
+            continue
+        m = _re.match(r'^\s+(\S+) -> (\S+)(?: \[(.*)\])?$', ln)
+        if section == "e" and m:
+            attrs = dict(_re.findall(r'(\w+)="([^"]*)"', m.group(3) or ""))
+            edges.append((m.group(1), m.group(2), attrs.get("label")))
+            continue
+        m = _re.match(r'^\s+(\S+)(?: \[(.*)\])?$', ln)
+        if section == "n" and m:
+            attrs = dict(_re.findall(r'(\w+)="([^"]*)"', m.group(2) or ""))
+            nodes.append((m.group(1), attrs.get("label")))
+            continue
+        raise TypeError(f"unparsed DOT line {ln!r}")
+    return nodes, edges
+
+
+def obs_c17(c: Ctx):
+    st, fl, tree = c.st, c.b.fl, c.b.tree
+    n = st["n"]
+    out = []
+    by_nid = {str(c.b.nodes[i].node_id): i for i in range(1, n + 1)}
+    name_to_d = {}
+    for d in range(1, 9):
+        try:
+            name_to_d[str(fl.data(d))] = d
+        except IndexError:
+            break
+
+    def key_of_token(tok, unique):
+        """graph node key token -> model key"""
+        if tok in ("__root__", '"__root__"'):
+            return ROOT_KEY
+        if tok == "0" and not unique:
+            return 0
+        if unique:
+            try:
+                real = int(tok)
+            except ValueError:
+                real = tok.strip('"')
+            md = fl.model_did(real)
+            if md == -1 and isinstance(real, int) and real == 0:
+                return -3
+            return md
+        return by_nid.get(tok, -2)
+
+    def kind_id(label):
+        from .flavours import KIND_IDS
+        return 0 if label is None else KIND_IDS.get(label, -1)
+
+    starts = [0] + list(range(1, n + 1))
+    for s in starts:
+        for unique in (True, False):
+            for self_ in (True, False):
+                a = {"start": s, "self": self_, "unique": unique, "fmt": "dot", "dup_defs_ok": s != 0 and self_ and unique}
+
+                def run_dot(s=s, unique=unique, self_=self_):
+                    if s == 0:
+                        return list(tree.to_dot(add_root=self_, unique_nodes=unique))
+                    return list(c.b.nodes[s].to_dot(add_self=self_, unique_nodes=unique))
+
+                def norm_dot(lines, unique=unique, s=s, self_=self_):
+                    nodes, edges = _dot_parse(lines)
+                    names = []
+                    for tok, label in nodes:
+                        if label is not None and label in name_to_d:
+                            names.append([key_of_token(tok, unique), name_to_d[label]])
+                    return {"nodes": [key_of_token(t, unique) for t, _ in nodes],
+                            "edges": [[key_of_token(p, unique), key_of_token(ch, unique)] for p, ch, _ in edges],
+                            "edge_kinds": [[key_of_token(p, unique), key_of_token(ch, unique), kind_id(lb)] for p, ch, lb in edges],
+                            "kinds": [], "names": names}
+
+                out.append({"q": "export", "a": a, "r": call(run_dot, norm_dot)})
+                # --- mermaid
+                a2 = dict(a, fmt="mermaid", dup_defs_ok=False)
+
+                def run_mm(s=s, unique=unique, self_=self_):
+                    buf = _io.StringIO()
+                    mapper = lambda nd: f"#{c.nid(nd)}#"  # noqa: E731
+                    if s == 0:
+                        tree.to_mermaid_flowchart(buf, add_root=self_, unique_nodes=unique, node_mapper=mapper)
+                    else:
+                        c.b.nodes[s].to_mermaid_flowchart(buf, add_self=self_, unique_nodes=unique, node_mapper=mapper)
+                    return buf.getvalue()
+
+                def norm_mm(text, unique=unique, s=s, self_=self_):
+                    idx_key = {}
+                    nodes, names, edges, ek = [], [], [], []
+                    sec = None
+                    for ln in text.splitlines():
+                        if ln.startswith("%% Nodes:"):
+                            sec = "n"
+                            continue
+                        if ln.startswith("%% Edges:"):
+                            sec = "e"
+                            continue
+                        if not ln.strip() or ln.startswith("%%") or ln.startswith("```") or ln.startswith("---") \
+                                or ln.startswith("title:") or ln.startswith("flowchart"):
+                            continue
+                        if sec == "n":
+                            m = _re.match(r'^(\d+)\{\{"(.*)"\}\}$', ln)
+                            if m:  # the start node (add_root / add_self): rendered with its name
+                                key = (ROOT_KEY if unique else 0) if s == 0 else \
+                                    (st["did"][s - 1] if unique else s)
+                                idx_key[m.group(1)] = key
+                                nodes.append(key)
+                                if s != 0 and m.group(2) in name_to_d:
+                                    names.append([key, name_to_d[m.group(2)]])
+                                continue
+                            m = _re.match(r'^(\d+)\("#(-?\d+)#"\)$', ln)
+                            if m:
+                                i = int(m.group(2))
+                                key = st["did"][i - 1] if unique else i
+                                idx_key[m.group(1)] = key
+                                nodes.append(key)
+                                names.append([key, st["dat"][i - 1]])  # the mapper rendered node i itself
+                                continue
+                            raise TypeError(f"unparsed mermaid node {ln!r}")
+                        if sec == "e":
+                            m = _re.match(r'^(\d+)\s*--\s*"(.*)"\s*-->\s*(\d+)$', ln) or None
+                            if m:
+                                p_, lb, ch = m.group(1), m.group(2), m.group(3)
+                            else:
+                                m = _re.match(r'^(\d+)\s*-->\s*(\d+)$', ln)
+                                if not m:
+                                    raise TypeError(f"unparsed mermaid edge {ln!r}")
+                                p_, lb, ch = m.group(1), None, m.group(2)
+                            edges.append([idx_key.get(p_, -2), idx_key.get(ch, -2)])
+                            ek.append([idx_key.get(p_, -2), idx_key.get(ch, -2), kind_id(lb)])
+                    return {"nodes": nodes, "edges": edges, "edge_kinds": ek, "kinds": [], "names": names}
+
+                out.append({"q": "export", "a": a2, "r": call(run_mm, norm_mm)})
+        # --- RDF (always keyed by data_id)
+        for self_ in ((True,) if s == 0 else (True, False)):
+            a3 = {"start": s, "self": self_, "unique": True, "fmt": "rdf", "dup_defs_ok": True}
+
+            def run_rdf(s=s, self_=self_):
+                if s == 0:
+                    return tree.to_rdf_graph()
+                return c.b.nodes[s].to_rdf_graph(add_self=self_)
+
+            def norm_rdf(g, s=s):
+                from nutree.rdf import NUTREE_NS
+                import rdflib
+
+                def key(term):
+                    if isinstance(term, rdflib.URIRef):
+                        return ROOT_KEY if term == NUTREE_NS.system_root else -2
+                    return fl.model_did(term.toPython())
+
+                nodes, edges, kinds, names = set(), [], [], []
+                for sub, pred, obj in g:
+                    nodes.add(key(sub))
+                    if pred == NUTREE_NS.has_child:
+                        edges.append([key(sub), key(obj)])
+                        nodes.add(key(obj))
+                    elif pred == NUTREE_NS.kind:
+                        kinds.append([key(sub), kind_id(str(obj))])
+                    elif pred == NUTREE_NS.name and key(sub) != ROOT_KEY:
+                        names.append([key(sub), name_to_d.get(str(obj), -1)])
+                return {"nodes": sorted(nodes), "edges": edges, "edge_kinds": [], "kinds": kinds, "names": names}
+
+            out.append({"q": "export", "a": a3, "r": call(run_rdf, norm_rdf)})
+    return out
